@@ -39,8 +39,8 @@ func HarnessC17a() {
 	b := symBytes("data", verifBound("LMAX"))
 	name := "n1"
 	rounds := verifBoundOr("R", 1)
+	p := NewPersistForPath(dir)
 	for r := 0; r < rounds; r++ {
-		p := NewPersistForPath(dir)
 		kind := verifChoose("fault", 3) // 0 none, 1 crash at a step, 2 write error after k bytes
 		switch kind {
 		case 1:
@@ -57,8 +57,12 @@ func HarnessC17a() {
 		if kind == 0 {
 			verifAssert("C17.healthy-store-succeeds", serr == nil && !crashed)
 		}
-		// "restart": a fresh Persist on the same directory
-		p2 := NewPersistForPath(dir)
+		// "restart": a fresh Persist on the same directory -- always after a crash; after an I/O error
+		// the process may also live on and keep using the Persist it has
+		if crashed || verifChoose("restart", 2) == 1 {
+			p = NewPersistForPath(dir)
+		}
+		p2 := p
 		got, lerr := p2.Load(vctx, name)
 		verifAssert("C17.load-after-cut-is-notfound-or-complete", lerr != nil || bytesEq(got, b))
 		if serr == nil && !crashed {
@@ -66,7 +70,7 @@ func HarnessC17a() {
 		}
 	}
 	// a later write of the same node repairs it
-	p3 := NewPersistForPath(dir)
+	p3 := p
 	serr2 := p3.Store(vctx, name, b)
 	verifAssert("C17.restore.err", serr2 == nil)
 	got2, lerr2 := p3.Load(vctx, name)
